@@ -348,3 +348,16 @@ def macro_programs(tier, seed):
     prog('caller-table', [Def('U', '`A x', [('x', None)]), Use('U', ['1'], '\n')])
     prog('around-preserved', [Def('M', 'mm'), T('a(', ''), Use('M', None, ''), T(')b', '  '), Use('M', None, '\n'), T('c', '\n')])
     return P
+
+
+def totality_programs(tier, seed):
+    """inputs that stress the unwrap / slice / index sites of the preprocessor (C08)"""
+    P = []
+    # `include through a macro whose expansion is short, empty, blank, non-ASCII, unbalanced quotes
+    for i, body in enumerate(['q', '', ' ', '"', '""', '"a', '\u00e9', '<>', '<', '"\u00e9"', '" "', 'a b']):
+        P.append(IncProg('total/inc-macro/%d' % i, [Def('M', body if body else None), Inc('x', 'M'), T('z', '\n')], ['A'], {}, include_paths=('p1',)))
+    # comments / strings / identifiers with multi-byte characters at the very end of the input, every piece kind last
+    for i, tail in enumerate(['// caf\u00e9', '/* \u00fc */', '"\u00df"', '\\esc\u00e9 ', 'x // \u00e9\n', '`define M \u00e9', '`M', '`ifdef A\n\u00e9 x\n`endif', 'a /*\u00e9*/b']):
+        P.append(Prog('total/tail/%d' % i, [T('module', ' '), T('m;', ' ')], ['A']))
+        P[-1].raw_tail = tail
+    return P
